@@ -133,6 +133,11 @@ class SymArr(_np.ndarray):
                 return self.copy()
             if dtype in (bool, _np.bool_):
                 return tobool(self)
+            flat = _plain(self).ravel()
+            if dtype in (int, _np.int64, _np.intp) and builtins.all(isinstance(x, (SymBool, bool, _np.bool_)) for x in flat):
+                return tobool(self).astype(dtype)
+            if dtype in (int, _np.int64, _np.intp) and builtins.all(isinstance(x, (SymInt, int, _np.integer)) for x in flat):
+                return _np.array([int(x) for x in flat], dtype=dtype).reshape(self.shape)
             raise Unmodelled(f'astype({dtype}) on symbolic array')
         if self.dtype == object and dtype in (float, _np.float64):
             return _plain(self).astype(float)
